@@ -1955,7 +1955,8 @@ class JoinOn(Join):
         )
 
     def validate(self, _from: Sequence[Table], _joins: Sequence[Table]) -> None:
-        criterion_tables = set([f.table for f in self.criterion.fields_()])
+        # a field without a table refers to no table, so it cannot refer to a missing one
+        criterion_tables = set([f.table for f in self.criterion.fields_() if f.table is not None])
         available_tables = set(_from) | {join.item for join in _joins} | {self.item}
         missing_tables = criterion_tables - available_tables  # type:ignore[operator]
         if missing_tables:
